@@ -4,6 +4,7 @@ import Mathlib.Analysis.SpecialFunctions.Pow.Real
 import Mathlib.Tactic.NormNum
 import EaselModel.Dist.Num
 import EaselModel.Dist.Special
+import EaselModel.Dist.ErfcGauss
 /-! `ℝ` instance of `Num` (noncomputable): the carrier on which the C10 theorems are stated.
 
 * `exp log pow sqrt floor fabs` are Mathlib's real functions. **Caution**: `Real.log` is total (`log 0 = 0`,
@@ -11,8 +12,10 @@ import EaselModel.Dist.Special
   carries the guard under which the C argument is positive, or covers the C branch that handles the edge.
 * `inf` (`eslINFINITY`) has no real value: it is an **opaque** constant, so no theorem can depend on its value;
   the branches returning `±inf` are stated symbolically (`= -Num.inf`), for every carrier at once.
-* `erfc` is an **opaque function symbol** (the code's `esl_stats_erfc`): theorems about the normal family take the
-  needed facts (`erfc (-t) = 2 - erfc t`, antitonicity) as hypotheses, never as axioms.
+* `erfc` is the complementary error function `(2/√π) ∫_t^∞ e^{-x²} dx` (`Dist/ErfcGauss.lean`, on Mathlib's Gaussian
+  integral; Mathlib has no `erf`/`erfc` of its own) — the same idealisation as `exp := Real.exp`: the code calls
+  `esl_stats_erfc` (Sun's rational approximation, hand model `erfcSun`, bit-exact at `Float`) or libm's `erfc`; that
+  those agree with the mathematical function to `1e-9` relative is L0 (monitored against mpmath), not proved.
 * `logGamma`, `incGammaP`, `incGammaQ` are the hand model of `esl_stats_LogGamma` / `esl_stats_IncompleteGamma`
   (`Dist/Special.lean`, the same definition the `Float` instance executes) read over `ℝ`; where the C function throws
   (`none`) the value is the opaque `realJunk`.  What they *approximate* (Γ, P, Q) is not proved — only what follows
@@ -21,7 +24,7 @@ noncomputable section
 namespace EaselModel.Dist
 
 opaque realInf : ℝ
-opaque realErfc : ℝ → ℝ
+def realErfc : ℝ → ℝ := ErfcGauss.erfc
 opaque realJunk : ℝ
 
 /-- `esl_stats_IncompleteGamma` as a real function: `some (P, Q)` where the C code returns `eslOK` -/
@@ -50,6 +53,7 @@ instance instNumReal : Num ℝ where
 @[simp] theorem num_expm1 (x : ℝ) : Num.expm1 x = Real.exp x - 1 := rfl
 @[simp] theorem num_pow (x y : ℝ) : Num.pow x y = x ^ y := rfl
 @[simp] theorem num_sqrt (x : ℝ) : Num.sqrt x = Real.sqrt x := rfl
+theorem num_erfc (x : ℝ) : Num.erfc x = ErfcGauss.erfc x := rfl
 @[simp] theorem num_fabs (x : ℝ) : Num.fabs x = |x| := rfl
 @[simp] theorem num_eqb (a b : ℝ) : (Num.eqb a b = true) ↔ a = b := by
   show decide (a = b) = true ↔ a = b
